@@ -14,6 +14,9 @@ Next == /\ Len(hist) < MaxLen
         /\ \/ ~ropen /\ ropen' = TRUE /\ UNCHANGED epochs /\ Rec("open", "")
            \/ ropen /\ epochs < MaxEpoch /\ epochs' = epochs + 1 /\ UNCHANGED ropen /\ Rec("reopen", "")
            \/ ropen /\ epochs < MaxEpoch /\ epochs' = epochs + 1 /\ ropen' = FALSE /\ Rec("close", "")
+           \* the partner detaches and re-attaches at once: Closed and Opened(new epoch) reach the client back to back,
+           \* its receive loop may process both before a blocked Send looks at the session again
+           \/ SendSide /\ ropen /\ epochs < MaxEpoch /\ epochs' = epochs + 1 /\ UNCHANGED ropen /\ Rec("closeopen", "")
            \/ SendSide /\ ropen /\ UNCHANGED <<ropen, epochs>> /\ Rec("ack", "")
            \/ SendSide /\ ropen /\ UNCHANGED <<ropen, epochs>> /\ Rec("ackwrong", "")
            \/ \E c \in Classes : ropen /\ UNCHANGED <<ropen, epochs>> /\ Rec("deliver", c)
